@@ -1,5 +1,6 @@
 import BppProofs.Lemmas.Rand
 import BppProofs.Lemmas.RandRcont
+import BppProofs.Lemmas.RandRcontTotal
 import BppProofs.Lemmas.RandLaw
 import BppProofs.Lemmas.RandSampleLaw
 import BppProofs.Lemmas.RandMonteCarlo
@@ -194,6 +195,54 @@ theorem rcont2_rejects (nrowt ncolt : List Nat) (picks : List (List Int)) :
   · rw [if_pos (by simpa using h1)]
   · have h2 : nrowt.sum ≠ ncolt.sum := by tauto
     rw [if_neg (by simpa using h1), if_pos (by simpa using h2)]
+
+/-- `rcont2_total` — the totality companion of `rcont2_margins` (which is conditional on
+`rcont2 … = .ok T`).  For every interpretation `P` of the standard library — in particular of the
+float-dependent inverse-cdf walk `P.rcell`, of which only "it stops at a value inside the support
+`max(0, ia+id-ie) ≤ v ≤ min(ia, id)` of the cell" is assumed (`WalkInSupport`; that a walk started
+inside the support can stop nowhere else is `rcont2_cell_support`, that the walk of the code does
+stop is `rcont2_walk_terminates`) —, every generator state and ALL margins the constructor accepts
+(at least two rows and columns, equal totals; zeros allowed): `rcont2` returns a table, and the
+table has exactly the requested margins.  Never `starved`, `unreachable`, `ub`, `bpp`. -/
+theorem rcont2_total {σ α : Type} (P : RandGen.Prims σ α) (hP : WalkInSupport P) (nrowt ncolt : List Nat) (g : σ)
+    (h2r : 2 ≤ nrowt.length) (h2c : 2 ≤ ncolt.length) (hsum : nrowt.sum = ncolt.sum) :
+    ∃ T, (RandGen.rcont2G P nrowt ncolt g).1 = .ok T ∧ marginsOk nrowt ncolt T = true := by
+  obtain ⟨T, hT⟩ := rcont2G_ok P hP nrowt ncolt g h2r h2c hsum
+  refine ⟨T, hT, ?_⟩
+  rw [rcont2G_eq P nrowt ncolt g h2r h2c hsum] at hT
+  exact rcont2_marginsOk nrowt ncolt _ T hT
+
+/-- in terms of the draw-taking model: for all valid margins there ARE cell values on which
+`rcont2` returns a table (so `rcont2_margins` is never vacuous), e.g. the starting values -/
+theorem rcont2_total_picks (nrowt ncolt : List Nat)
+    (h2r : 2 ≤ nrowt.length) (h2c : 2 ≤ ncolt.length) (hsum : nrowt.sum = ncolt.sum) :
+    ∃ picks T, rcont2 nrowt ncolt picks = .ok T ∧ marginsOk nrowt ncolt T = true := by
+  obtain ⟨T, hT, hm⟩ := rcont2_total startWalk startWalk_inSupport nrowt ncolt () h2r h2c hsum
+  rw [rcont2G_eq startWalk nrowt ncolt () h2r h2c hsum] at hT
+  exact ⟨_, T, hT, hm⟩
+
+/-- … and for ANY supplied cell values the only failures on valid margins are those of the
+supply itself (too few values, or a value the walk cannot reach): never an outcome of the code -/
+theorem rcont2_fails_only_on_bad_picks (nrowt ncolt : List Nat) (picks : List (List Int))
+    (h2r : 2 ≤ nrowt.length) (h2c : 2 ≤ ncolt.length) (hsum : nrowt.sum = ncolt.sum) :
+    (∃ T, rcont2 nrowt ncolt picks = .ok T) ∨ rcont2 nrowt ncolt picks = .error .starved ∨
+      rcont2 nrowt ncolt picks = .error .unreachable :=
+  rcont2_outcomes nrowt ncolt picks h2r h2c hsum
+
+/-- the refusal is exactly the constructor's guard (converse of `rcont2_rejects`) -/
+theorem rcont2_rejects_iff (nrowt ncolt : List Nat) (picks : List (List Int)) :
+    rcont2 nrowt ncolt picks = .error .bpp ↔ (nrowt.length < 2 ∨ ncolt.length < 2 ∨ nrowt.sum ≠ ncolt.sum) := by
+  constructor
+  · intro h
+    by_contra hc
+    simp only [not_or, not_lt, ne_eq, not_not] at hc
+    rcases rcont2_outcomes nrowt ncolt picks hc.1 hc.2.1 hc.2.2 with ⟨T, hT⟩ | h' | h' <;> rw [h] at * <;> simp_all
+  · exact rcont2_rejects nrowt ncolt picks
+
+/-! non-vacuity of `WalkInSupport`: the walk that stops at its starting value; any walk is allowed
+to depend on the generator state -/
+example : WalkInSupport startWalk := startWalk_inSupport
+example : (RandGen.rcont2G startWalk [4, 6, 5] [7, 8] ()).1 = .ok [[2, 2], [3, 3], [2, 3]] := by decide
 
 /-- the unrepaired starting value `ia * (size_t)(id/ie + 0.5)`: for rows (5,1) and columns (3,3)
 the very first cell starts at `nlm = 5 > id = 3` and reads `fact_[id - nlm]` out of bounds, for
